@@ -106,6 +106,15 @@ def getattr_static(obj, attr, default=_sentinel):
             # A get/set descriptor has priority over everything.
             return klass_result, True
 
+    if obj is klass and klass_result is not _sentinel:
+        # For types the same is true for the metaclass: a get/set descriptor
+        # there has priority over the attribute of the class itself.
+        metaclass_result = _check_class(type(klass), attr)
+        if metaclass_result is not _sentinel \
+                and _safe_hasattr(metaclass_result, '__get__') \
+                and _safe_is_data_descriptor(metaclass_result):
+            return metaclass_result, True
+
     if instance_result is not _sentinel:
         return instance_result, False
     if klass_result is not _sentinel:
